@@ -29,6 +29,9 @@ CHECKS = {
  "C18": dict(cat="model_checking", technique="explicit-state exhaustive enumeration of (definition x environment state x token tree); reference scanner with the env fallback rule replayed against run_inner in single-threaded workers that really set the variables",
    text="Every item kind backed by one variable, two variables or a variable only, x every state (unset, empty, valid, invalid, non-UTF-8) of every declared variable x every vector up to the bound; line occurrences win, the variable supplies one occurrence otherwise, conversion applies equally; undeclared look-alike variables never change the outcome; --help shows the declared variable state.",
    note="Process environment is mutated between cases inside single-threaded worker processes.", ref="4/C18"),
+ "C10": dict(cat="exploration", technique="exhaustive enumeration of base vectors (token tree) x every insertion position of the help/version token; reference level-finder; outcome compared byte-for-byte with the owning level's canonical help",
+   text="For conventional levels, command trees, general shapes and adjacent groups every vector up to the bound gets --help/-h/--version/-V (and custom help names) inserted at every position left of `--`; the outcome must be stdout and equal to the help/version text of the level owning that position; unconfigured version is an ordinary unknown flag.",
+   note="Positions right of an enclosing-level option written after a command name are skipped (ownership not fixed by the documentation); for general shapes the level is judged only while no command name precedes the position.", ref="4/C10"),
 }
 NOT_YET = {}
 def main():
